@@ -623,3 +623,7 @@ F("L32", "C08", HN, "    elif len(a) >= min_signatures:\n", "    elif len(a) > m
 F("L33", "C08", HN, "          b0 = b[i : i + sliding_window_size]\n          yield a0, b0, constant_list[:num_constants], w", "          b0 = b[i + 1 : i + 1 + sliding_window_size]\n          yield a0, b0, constant_list[:num_constants], w", "R-C08-SUBSETS", "sliding windows of a and b misaligned")
 F("L34", "C08", HN, "        yield a + [0], b + [1], constant_list[:num_constants], w", "        yield a + [1], b + [0], constant_list[:num_constants], w", "R-C08-SUBSETS", "key-inclusion sample swapped")
 T("L35", "C08", HN, "    elif len(a) == min_signatures - 1:\n      if flags & SearchStrategy.INCLUDE_KEY:", "    elif len(a) + 1 == min_signatures and flags & SearchStrategy.INCLUDE_KEY:\n      if True:", "key-inclusion regime test rewritten")
+
+# ---------------------------------------------------------------------------------- C12 cusum extrema, semantic version
+F("L41", "C12", NS, "    maxs = max(0, max(total_cnt, default=0))", "    maxs = max(total_cnt, default=0)", "R-C12-CUSUM", "fall-back maximum no longer clamped with S_0 = 0 (defect before 0d3e4df)")
+F("L42", "C12", NS, "      if s > maxs:\n        maxs = s", "      if s != maxs:\n        maxs = s", "R-C12-CUSUM", "maximum overwritten by any different state")
